@@ -403,12 +403,8 @@ pub fn suite_hide(out: &mut Out, tier: &str, rng: &mut Rng) {
     }
     // every secret length 0..72 (and around 2 x 64) on a two-block value: the MD5 pre-images
     // (6 + |secret| and 16 + |secret| octets) cross MD5's 55/56 and 64-octet boundaries on the way
-    let mut slens: Vec<usize> = (0..=72).collect();
-    slens.extend([103usize, 104, 111, 112, 119, 120, 121, 127, 128, 129, 255, 256]);
+    let slens: Vec<usize> = (0..=260).collect();
     for (i, sl) in slens.iter().enumerate() {
-        if tier != "thorough" && *sl > 72 && i % 2 == 0 {
-            continue;
-        }
         let (a, lp) = avp_for_blocks(rng, 2, false);
         let secret = rng.bytes(*sl);
         out.emit(json!({"op": if i % 2 == 0 { "hide" } else { "hide_reveal" }, "v": a, "secret": bytes_json(&secret),
@@ -539,6 +535,16 @@ pub fn suite_reveal(out: &mut Out, tier: &str, rng: &mut Rng) {
     }
     for _ in 0..counts(tier, 10, 200) {
         out.emit(json!({"op": "reveal", "v": gen_avp(rng, 20), "secret": bytes_json(&secret_of(rng)), "rv": bytes_json(&rng.bytes(4))}));
+    }
+    // every secret length 0..=260 on values of one, two and three blocks (arbitrary octets and crafted valid ones)
+    for sl in 0..=260usize {
+        let blocks = 1 + sl % 3;
+        let secret = rng.bytes(sl);
+        let t = *rng.pick(&types);
+        out.emit(json!({"op": "reveal", "v": {"k": "Hidden", "f": [t, bytes_json(&rng.bytes(16 * blocks))]}, "secret": bytes_json(&secret), "rv": bytes_json(&rng.bytes(4))}));
+        let a = host(16 * blocks - 3, rng);
+        let (ty, plain) = plain_for(&a);
+        out.emit(json!({"op": "reveal", "t": ty, "plain": bytes_json(&plain), "secret": bytes_json(&secret), "rv": bytes_json(&rng.bytes(4))}));
     }
 }
 
@@ -1979,10 +1985,12 @@ fn special_texts() -> Vec<Vec<u8>> {
     let atoms: Vec<&str> = vec![
         "\u{feff}", " ", "\t", "\n", "\r\n", "\r", "\0", "\u{a0}", "\u{200b}", "\u{2028}", "\u{85}", "\u{1}", "\u{7f}",
         "\u{fffd}", "\u{d7ff}", "\u{e000}", "\u{ffff}", "\u{10000}", "\u{10ffff}", "\u{200f}", "\u{301}",
+        ".", "-", "_", "/", ":", "@", ",", ";", "#", "*", "+", "\"", "'",
     ];
     let mut out: Vec<Vec<u8>> = Vec::new();
     for a in atoms.iter() {
-        for t in [a.to_string(), format!("{a}ab"), format!("ab{a}"), format!("a{a}b"), format!("{a}{a}"), format!("{a}ab{a}")] {
+        for t in [a.to_string(), format!("{a}ab"), format!("ab{a}"), format!("a{a}b"), format!("{a}{a}"), format!("{a}ab{a}"),
+                  format!("ab{a}{a}"), format!("{a}{a}ab"), format!("ab{a}{a}{a}"), format!("a{a}b{a}c")] {
             out.push(t.into_bytes());
         }
     }
@@ -2041,7 +2049,7 @@ pub fn suite_text_classes(out: &mut Out, tier: &str, rng: &mut Rng) {
     let mut n = 0usize;
     for (ti, t) in specials.iter().enumerate() {
         for (ki, k) in text_kinds.iter().chain(octet_kinds.iter()).enumerate() {
-            if ki >= text_kinds.len() && tier != "thorough" && (ti + ki) % 3 != 0 {
+            if ki > text_kinds.len() && tier != "thorough" && (ti + ki) % 3 != 0 {    // (Host Name always)
                 continue;
             }
             let a = text_avp(k, t, rng);
@@ -2234,6 +2242,50 @@ pub fn suite_rfc_messages(out: &mut Out, tier: &str, rng: &mut Rng) {
                        "ns_nr": if has_s { json!([[total, payload.len()]]) } else { json!([]) }, "offset": [], "data": bytes_json(&payload)});
         out.emit(json!({"op": "roundtrip", "kind": "msg", "v": d}));
     }
+    // data messages carrying PPP frames of every control protocol and code, with and without the ff 03 prefix
+    for proto in [[0xc0u8, 0x21], [0x80, 0x21], [0xc0, 0x23], [0xc2, 0x23], [0x00, 0x21], [0x00, 0x57], [0x80, 0xfd], [0x80, 0x57]] {
+        for code in 0u8..=16 {
+            for prefix in [false, true] {
+                let mut payload: Vec<u8> = if prefix { vec![0xff, 0x03] } else { vec![] };
+                payload.extend_from_slice(&proto);
+                let body = rng.rbytes(0, 8);
+                let l = 4 + body.len();
+                payload.extend_from_slice(&[code, rng.u8(), (l >> 8) as u8, l as u8]);
+                payload.extend_from_slice(&body);
+                let shape = (code as usize + prefix as usize) % 4;
+                let has_len = shape & 1 == 1;
+                let has_s = shape & 2 == 2;
+                let total = 2 + if has_len { 2 } else { 0 } + 4 + if has_s { 4 } else { 0 } + payload.len();
+                for prio in [false, true] {
+                    let d = json!({"k": "Data", "prio": prio, "length": if has_len { json!([total]) } else { json!([]) }, "tunnel_id": rng.u16(), "session_id": rng.u16(),
+                                   "ns_nr": if has_s { json!([[rng.u16(), rng.u16()]]) } else { json!([]) }, "offset": [], "data": bytes_json(&payload)});
+                    out.emit(json!({"op": "roundtrip", "kind": "msg", "v": d}));
+                }
+            }
+        }
+    }
+    // every message type with ALL the AVPs it may carry, in three random orders
+    for (mt, mand, opt) in comp.iter() {
+        for _ in 0..3 {
+            let mut names: Vec<&str> = mand.iter().chain(opt.iter()).copied().collect();
+            for i in (1..names.len()).rev() {
+                let j = rng.below(i as u64 + 1) as usize;
+                names.swap(i, j);
+            }
+            let mut avps = vec![json!({"k": "MessageType", "f": [mt]})];
+            for nme in names {
+                let ki = KINDS.iter().position(|k| k.1 == nme).unwrap();
+                let mut a = gen_avp_kind(rng, ki, 8);
+                if nme.ends_with("LcpConfReq") {
+                    a["f"][0] = bytes_json(&gen_lcp(rng, false));
+                }
+                avps.push(a);
+            }
+            let m = json!({"k": "Control", "length": 0, "tunnel_id": rng.u16(), "session_id": rng.u16(), "ns": rng.u16(), "nr": rng.u16(), "avps": avps});
+            out.emit(json!({"op": "roundtrip", "kind": "msg", "v": m}));
+            out.emit(json!({"op": "chain", "in": bytes_json(&enc_control(&m)), "opts": [true, true, true]}));
+        }
+    }
     // LCP-shaped payloads alone, in the three kinds that carry them
     for _ in 0..counts(tier, 30, 1000) {
         for k in ["InitialReceivedLcpConfReq", "LastSentLcpConfReq", "LastReceivedLcpConfReq", "ProxyAuthenChallenge"] {
@@ -2250,6 +2302,21 @@ pub fn suite_rfc_messages(out: &mut Out, tier: &str, rng: &mut Rng) {
 /// length (6..10 and the exact / short / long payload of known kinds) -- as the first record of a control
 /// message, as the second one behind a Message Type, and as a bare list
 pub fn suite_record_product(out: &mut Out, tier: &str, rng: &mut Rng) {
+    // attribute numbers that later RFCs assign (40..=110, e.g. 46 PPP Disconnect Cause) and the unassigned 20,
+    // behind every message type, M bit clear / set, with and without a payload: still unknown to this codec
+    for t in (40u16..=110).chain([20]) {
+        for (mi, (_, mt)) in MSG_TYPES.iter().enumerate() {
+            for f in [0u8, 1] {
+                let _ = (tier, mi);
+                let p = if (t + f as u16) % 3 == 0 { vec![] } else { rng.rbytes(1, 6) };
+                let recs = vec![enc_avp(&json!({"k": "MessageType", "f": [mt]})), enc_record(f, 6 + p.len(), 0, t, &p), enc_avp(&gen_avp(rng, 6))];
+                let body: Vec<u8> = recs.iter().flatten().copied().collect();
+                let w = enc_control_raw(flag_word(true, true, true, false, false, 2), None, [1, 2, 3, 4], &body);
+                out.emit(json!({"op": "ctl_records", "in": bytes_json(&w), "recs": recs.iter().map(|r| bytes_json(r)).collect::<Vec<_>>()}));
+                out.emit(json!({"op": "decode", "in": bytes_json(&w), "opts": [true, true, true], "entry": "validate", "rdr": "slice"}));
+            }
+        }
+    }
     let flags: &[u8] = &[0, 1, 2, 3, 0x3d, 0x3e];
     let types: Vec<u16> = if tier == "thorough" { (0..=41u16).chain([255, 256, 65535]).collect() } else { vec![0, 1, 7, 12, 13, 20, 26, 29, 34, 36, 39, 40, 65535] };
     let ctl = |body: &[u8]| enc_control_raw(flag_word(true, true, true, false, false, 2), None, [1, 2, 3, 4], body);
